@@ -51,13 +51,18 @@ def check(node: CallExpr, errors: list[Error]) -> None:
                     old = repr(value)[1:-1]
 
                     try:
-                        new = value.strip().lstrip("+")
-
-                        if int(value) != 0:
-                            new = new.lstrip("0")
+                        number = int(value)
 
                     except ValueError:
                         return
+
+                    # int() also accepts underscores, non-ASCII digits and
+                    # leading zeros after a sign, none of which can be copied
+                    # into an int literal as-is.
+                    new = str(number)
+
+                    if number == 0 and value.strip().startswith("-"):
+                        new = "-0"
 
                     func_name = stringify_decimal_expr(ref)
 
